@@ -9,9 +9,9 @@ import store
 from common import Check
 
 SIZES = [0, 1, 2, 65535, 65536, 65537, 131071, 131072, 131073, 524287, 524288, 524289, 1048577]
-KINDS = ['zeros', 'random', 'half', 'text']
+KINDS = ['zeros', 'random', 'half', 'text', 'gz']
 PATHS = ['add_object', 'add_streamed_object', 'pack_plain', 'pack_z', 'pack_one_plain', 'pack_one_z', 'pack_streamed_bytesio',
-         'pack_streamed_lazy', 'loose_then_pack', 'loose_then_pack_z']
+         'pack_streamed_lazy', 'loose_then_pack', 'loose_then_pack_z', 'loose_then_pack_auto', 'pack_then_repack_auto']
 
 
 def content(kind, size, seed):
@@ -23,6 +23,10 @@ def content(kind, size, seed):
         return r.randbytes(size)
     if kind == 'half':
         return bytes(size // 2) + r.randbytes(size - size // 2)
+    if kind == 'gz':   # an already compressed payload: a gzip stream (its signature first), cut or padded with noise to the size
+        import gzip
+        z = gzip.compress(r.randbytes(max(size, 16)), mtime=0)
+        return (z + r.randbytes(max(0, size - len(z))))[:size]
     return (b'The quick brown fox %d. ' % seed * (size // 20 + 1))[:size]
 
 
@@ -56,10 +60,15 @@ def run_cell(cell):
                 f.write(b)
             k = c.add_streamed_objects_to_pack([LazyOpener(Path(p))], open_streams=True, compress=cell['seed'] % 2 == 1,
                                                no_holes=cell['seed'] % 3 == 0, no_holes_read_twice=cell['seed'] % 5 != 0)[0]
+        elif path == 'pack_then_repack_auto':
+            from disk_objectstore import CompressMode
+            k = c.add_objects_to_pack([other[0], b, other[1]], compress=cell['seed'] % 2 == 0)[1]
+            c.repack(compress_mode=CompressMode.AUTO)
         else:
+            from disk_objectstore import CompressMode
             k = c.add_object(b)
             c.add_object(other[0])
-            c.pack_all_loose(compress=path.endswith('z'))
+            c.pack_all_loose(compress=CompressMode.AUTO if path.endswith('auto') else path.endswith('z'), validate_objects=cell['seed'] % 3 != 0)
             if cell['seed'] % 2:
                 c.clean_storage()
         exp = store.H(ht, b)
